@@ -1,4 +1,4 @@
-"""re-run one recorded case in-process with its monitor attached and print the witness."""
+"""re-run one recorded case with its monitor attached and print the witness."""
 from __future__ import annotations
 
 import json
@@ -8,15 +8,36 @@ import sys
 def replay(path: str) -> int:
     d = json.load(open(path))
     case = d["case"]
+    prop = d.get("property")
+    if "differential" in case:
+        # C01: the two executions that differed, each in its own interpreter process under its own hash seed
+        from hivemon.checks.c01 import first_difference
+        from hivemon.drive import pool
+
+        a, b = case["differential"]
+        print(f"replaying scenario {a.get('scenario')} under PYTHONHASHSEED {a.get('hashseed')} and {b.get('hashseed')}", file=sys.stderr)
+        results, problems = pool.run_cases([dict(a), dict(b)], nproc=2)
+        if problems or len(results) != 2:
+            print("INCONCLUSIVE replay:", problems[:2])
+            return 2
+        ra = next(r for r in results if r["id"] == a["id"])
+        rb = next(r for r in results if r["id"] == b["id"])
+        w = first_difference(ra, rb)
+        if w is None:
+            print("no difference reproduced")
+            return 0
+        print(json.dumps(w, indent=1, default=str))
+        print(f"VIOLATION property={prop} replay={path}")
+        return 1
     from hivemon.drive import engines
 
-    print(f"replaying {case.get('id')} (engine {case.get('engine')}) for property {d.get('property')}", file=sys.stderr)
+    print(f"replaying {case.get('id')} (engine {case.get('engine')}) for property {prop}", file=sys.stderr)
     res = engines.get(case["engine"])(case)
-    vs = [v for v in res.get("violations", []) if v["property"] == d.get("property")]
+    vs = [v for v in res.get("violations", []) if v["property"] == prop]
     for v in vs:
         print(json.dumps(v, indent=1, default=str))
     if vs:
-        print(f"VIOLATION property={d.get('property')} replay={path}")
+        print(f"VIOLATION property={prop} replay={path}")
         return 1
     print("no violation reproduced")
     return 0
